@@ -197,7 +197,14 @@ pub fn literal_of(ph: &Val) -> Option<String> {
         if s.parse::<f64>().ok()? != x.abs() { return None; }
         Some(if x < 0.0 { format!("(-{})", s) } else { s })
     };
+    // values without a literal: the constant expressions that produce them (C14 names NaN, the infinities and -0.0)
+    let special = |x: f64, float_zero: &str| -> Option<String> {
+        if x.is_nan() { Some("(0/0)".into()) } else if x == f64::INFINITY { Some("(1/0)".into()) } else if x == f64::NEG_INFINITY { Some("(-1/0)".into()) }
+        else if x == 0.0 && x.is_sign_negative() { Some(format!("(-{})", float_zero)) } else { None }
+    };
     match ph {
+        Val::F(x) if !x.is_finite() || (*x == 0.0 && x.is_sign_negative()) => special(*x, "0"),
+        Val::N(Number::Float(x)) if !x.is_finite() || (*x == 0.0 && x.is_sign_negative()) => special(*x, "0."),
         Val::F(x) => f(*x),
         Val::I(i) => if *i >= 0 { Some(format!("{}", i)) } else if *i > i64::MIN { Some(format!("(-{})", -i)) } else { None },
         Val::D(d) => { let s = format!("{}", d.abs()); Some(if d.is_sign_negative() && !d.is_zero() { format!("(-{})", s) } else if d.is_sign_negative() { return None } else { s }) }
